@@ -215,12 +215,12 @@ nextchar_spec(struct scanner *s)
 
 /* ---------------------------------------------------------------------------------------------------------------
  * Allocation model for units that define GS_SMALL_TOKENS (compile with -DVERIF_OWN_XMALLOC so that stubs/base.c leaves
- * the names free): the token window is far smaller than the initial capacity 256 of the spelling buffer, so the only
- * allocation that can happen is the FIRST one (buffer never allocated before: 0 -> 256 bytes).  Growing an existing
- * buffer is asserted unreachable (the obligation is discharged in every such unit); growth itself -- doubling, index
- * < cap -- is SCAN.buf's and SCAN.nextchar's business.  Reason: the path merges inside scankind make buf.len symbolic,
- * symbolic execution then explores realloc (allocate + copy a symbolic-size object) in every loop iteration: 8-11 M
- * clauses for a 12-character identifier.
+ * the names free): these units start from a scanner whose spelling buffer has its initial capacity 256 (any state
+ * after the first spelled token of a file) and the token window is far smaller, so the buffer cannot grow: growth is
+ * ASSERTED unreachable (the obligation is discharged in every such unit).  The first allocation 0 -> 256 and doubling
+ * are SCAN.buf's and SCAN.nextchar's business.  Reason: path merges inside scankind make buf.len symbolic, symbolic
+ * execution then explores realloc (new object + copy of a symbolic-size object) in every loop iteration: 8-11 M
+ * clauses for a 12-character identifier, worse when each iteration may create the buffer.
  */
 #if defined(GS_SMALL_TOKENS) && !defined(VERIF_REPLAY)
 void *
@@ -234,14 +234,10 @@ xmalloc(size_t n)
 void *
 xreallocarray(void *buf, size_t n, size_t m)
 {
-	void *p;
-
-	__CPROVER_assert(buf == 0, "spelling buffer: an allocated buffer (capacity >= 256) does not grow for a token inside the window");
-	__CPROVER_assume(buf == 0);
-	__CPROVER_assert(n == (1 << 8) && m == 1, "spelling buffer: first allocation is 256 bytes");
-	p = malloc(1 << 8);
-	__CPROVER_assume(p != 0);
-	return p;
+	(void)n; (void)m;
+	__CPROVER_assert(0, "spelling buffer: an allocated buffer (capacity >= 256) does not grow for a token inside the window");
+	__CPROVER_assume(0);
+	return buf;
 }
 #endif
 
